@@ -586,7 +586,7 @@ QUICK = (300, 2)        # Hypothesis examples x programs per example
 THOROUGH = (15000, 2)
 TU_GROUP = 12
 ROUND = 300             # Hypothesis examples per generate/evaluate round
-NWORKERS = 8
+NWORKERS = min(16, vlib.NCPU)
 
 
 def scaffold_free_classify(d):
